@@ -425,7 +425,7 @@ def toolLine (log : List (TLog Nat TRes)) (mi ae hs ha ps ts cs : String) :
   let r := nucCallM toolAdvD log s0 (schemas, cfg)
   (r.1, showTool r.1 r.2.2 ++ " ## " ++ toolTags cfg r.2.2)
 
-def step (st : DSt) (toks : List String) : DSt × String :=
+def stepSlot (st : DSt) (toks : List String) : DSt × String :=
   match toks with
   | ["heal", mr, decay, _mode, gs, fs] =>      -- a fresh loop object, one call
     let s0 : HSt := hScripts (scriptOf gs) (scriptOf fs)
@@ -469,4 +469,22 @@ def step (st : DSt) (toks : List String) : DSt × String :=
   | ["retools", _, _, _] => (st, "ok")   -- re-entrant tool adversary: judged by the harness oracle only
   | _ => (st, "bad-op")
 
-def main : IO Unit := runDriver ({} : DSt) step
+/-- Two slots of live objects (a loop, a swarm and a nucleus each) are alive side by side; `sel 0|1` chooses the
+    slot the following lines act on.  Objects of different slots share nothing. -/
+structure DSt2 where
+  a : DSt := {}
+  b : DSt := {}
+  cur : Bool := false
+
+def step (st : DSt2) (toks : List String) : DSt2 × String :=
+  match toks with
+  | ["sel", k] => ({ st with cur := k = "1" }, "ok")
+  | _ =>
+    if st.cur then
+      let r := stepSlot st.b toks
+      ({ st with b := r.1 }, r.2)
+    else
+      let r := stepSlot st.a toks
+      ({ st with a := r.1 }, r.2)
+
+def main : IO Unit := runDriver ({} : DSt2) step
